@@ -146,6 +146,15 @@ CHECKS = {
         "construction); a failure is injected at each PIL call of a render/iteration/draw and the census taken while the exception is alive.",
         note="fd census on CPython (reference counting); the HTTP server runs out of process so its sockets are not counted; animated PNG excluded (Pillow 11.1 APNG rewind bug).",
     ),
+    "C12": dict(
+        level="exploration",
+        technique="runtime monitor: scripted terminal on a real pty (one fresh process per identity) answering queries with controlled form and timing; results compared with the script and the documented support table; FIONREAD and elapsed-time observers",
+        text="Per scripted terminal: kitty/iterm2 support and auto_image_class() against the documented decision table; then value cases "
+        "re-script replies (1..4 hex digits, ST/BEL, offsets within 0.4 x timeout, unsupported-query subsets, pixel size via ioctl / XTWINOPS "
+        "16 / 14 / none, swap, queries disabled): reported colours, name, version, cell size must equal the script, no reply bytes may remain "
+        "unread (when DA1 is answered), defaults within the timeout otherwise.",
+        note="Timing: verdicts use values, not wall-clock; a timing-sensitive mismatch must reproduce 3/3 with longer timeouts; elapsed-time overruns are inconclusive, not violations.",
+    ),
 }
 
 NOT_APPLICABLE = {
